@@ -235,6 +235,63 @@ def reach_and_list(R, ctx):
     R.require(rid, "floor", n >= 10, "", "%d drivers in default rules (floor 10)" % n)
 
 
+def index_key_dropped(R, ctx):
+    """convert_index_to_field drops the key expression: only a key that does nothing but give its value may go."""
+    from .. import peval
+    from ..peval import make, Enum, NONE
+    rid = "C01.index-key"
+    lib = ctx.lib
+    R.rule(rid, "convert_index_to_field's expression callback (processor found by role: the NodeProcessor of that rule's module that holds an "
+                "Evaluator), evaluated from its typed tree on `t[K]`: a key that is a constant identifier-like string (`'key'`, `'k'..'ey'`, "
+                "`('key')`) becomes `t.key`; a key with the same value but a side effect (`{f()} and 'key'`, `'key', f()` inside a table "
+                "operand, `(function() .. end)() and 'key'` as a call) and keys that are not identifiers stay an index -- replacing them "
+                "would drop the call")
+    N = "nodes::"
+    EXPR, PREFIX, ID = N + "expressions::Expression", N + "expressions::prefix::Prefix", N + "identifier::Identifier"
+    procs = [(k, f) for k, f in lib.fns.items() if k.startswith("<rules::convert_index_to_field::") and k.endswith(" as process::node_processor::NodeProcessor>::process_expression") and thir.body_of(f)]
+    if not R.require(rid, "anchor:processor", len(procs) == 1, "", "convert_index_to_field's process_expression not found"):
+        return
+    fn = procs[0][1]
+    owner = procs[0][0][1:].split(" as ")[0].split("<")[0]
+    dflt = lib.fn("<%s as core::default::Default>::default" % owner)
+
+    def ident(n):
+        return make(lib, ID, {"name": n, "token": NONE})
+
+    def s_(t):
+        return Enum(EXPR, "String", {"0": make(lib, N + "expressions::string::StringExpression", {"value": list(t.encode()), "token": NONE})})
+
+    def call():
+        return Enum(EXPR, "Call", {"0": make(lib, N + "function_call::FunctionCall", {"prefix": Enum(PREFIX, "Identifier", {"0": ident("f")}),
+                    "arguments": Enum(N + "arguments::Arguments", "Tuple", {"0": make(lib, N + "arguments::TupleArguments", {"values": [], "tokens": NONE})}), "method": NONE, "tokens": NONE})})
+
+    def table_with_call():
+        return Enum(EXPR, "Table", {"0": make(lib, N + "expressions::table::TableExpression", {"entries": [Enum(N + "expressions::table::TableEntry", "Value", {"0": call()})], "tokens": NONE})})
+
+    def binary(op, l, r):
+        return Enum(EXPR, "Binary", {"0": make(lib, N + "expressions::binary::BinaryExpression", {"operator": Enum(N + "expressions::binary::BinaryOperator", op, {}), "left": l, "right": r, "token": NONE})})
+
+    def paren(e):
+        return Enum(EXPR, "Parenthese", {"0": make(lib, N + "expressions::parenthese::ParentheseExpression", {"expression": e, "tokens": NONE})})
+    cases = [("'key'", lambda: s_("key"), True), ("'k'..'ey'", lambda: binary("Concat", s_("k"), s_("ey")), True), ("('key')", lambda: paren(s_("key")), True),
+             ("{f()} and 'key'", lambda: binary("And", table_with_call(), s_("key")), False), ("({f()} and 'key')", lambda: paren(binary("And", table_with_call(), s_("key"))), False),
+             ("'k' .. ({f()} and 'ey')", lambda: binary("Concat", s_("k"), paren(binary("And", table_with_call(), s_("ey")))), False),
+             ("'not an id'", lambda: s_("not an id"), False), ("'end'", lambda: s_("end"), False), ("f()", call, False)]
+    for label, build, want_field in cases:
+        pe = peval.PEval(lib, ctx.an)
+        try:
+            conv = pe.call_fn(dflt, []) if dflt is not None else make(lib, owner)
+            node = Enum(EXPR, "Index", {"0": make(lib, N + "expressions::index::IndexExpression", {"prefix": Enum(PREFIX, "Identifier", {"0": ident("t")}), "index": build(), "tokens": NONE})})
+            pe.call_fn(fn, [conv, node])
+            got = node.variant
+            unknown = [w for w in pe.unknown_reasons if w.startswith(("branch on unknown", "match on unknown"))]
+        except peval.OutOfFuel:
+            got, unknown = None, ["no termination"]
+        ok = (got == ("Field" if want_field else "Index")) and not unknown
+        R.ob(rid, "t[%s]" % label, ok, ctx.where(fn), "%s" % ("becomes t.key" if want_field else "stays an index") if ok else
+             "`t[%s]` %s (expected: %s) %s" % (label, "is rewritten to a field access: the key expression and its call are dropped" if got == "Field" else "gives %s" % got, "field" if want_field else "index kept", unknown[:1]))
+
+
 def run(R, ctx):
     R.explanation = (
         "Guard-before-act and contradiction rules on typed THIR for the three mechanisms the property anchors: side-effect analysis before "
@@ -249,6 +306,7 @@ def run(R, ctx):
     # the default rules that drop or rename variables (remove_unused_variable, rename_variables, ...) are driven by the scope visitors:
     # Lua's visibility rules as event-order constraints (shared with C09.order)
     from . import c09
+    index_key_dropped(R, ctx)
     c09.order(R, ctx, "C01.scope")
     # rename_variables is one of the default rules: its name bookkeeping (C09.pool) and the distinctness of live names (C09.distinct)
     c09.pool(R, ctx, rid_override="C01.rename")
